@@ -37,6 +37,12 @@ func newLocalFile(path string, relPath string, info os.FileInfo) (f *localFile, 
 		if linkedPath, err = os.Readlink(path); err != nil {
 			return
 		}
+		if !filepath.IsAbs(linkedPath) {
+			// A relative target is relative to the directory holding the link,
+			// not to the working directory of the process.  (No filepath.Join:
+			// cleaning ".." lexically is wrong when that directory is a link.)
+			linkedPath = filepath.Dir(path) + string(os.PathSeparator) + linkedPath
+		}
 		if f.info, err = os.Stat(linkedPath); err != nil {
 			return
 		}
